@@ -194,6 +194,7 @@ func (P *Prog) valuePredicates() []*predClass {
 // entryPath is one way through the validator's per-entry loop body.
 type entryPath struct {
 	p        *Path
+	conds    []Fact // p.conds plus the conditions of helper calls that succeeded on the way (expanded)
 	accepted bool  // iteration continues (entry accepted)
 	label    int64 // when labelKnown
 	known    bool
@@ -221,7 +222,7 @@ func (P *Prog) validatorEntryPaths(val *ssa.Function) ([]*entryPath, *loopInfo) 
 		if !p.feasible() {
 			continue
 		}
-		ep := &entryPath{p: p}
+		ep := &entryPath{p: p, conds: p.conds}
 		if p.ret == nil {
 			ep.accepted = true
 		} else {
@@ -257,13 +258,87 @@ func (P *Prog) validatorEntryPaths(val *ssa.Function) ([]*entryPath, *loopInfo) 
 		if !ep.known && nLabelConds > 0 {
 			ep.other = true
 		}
-		out = append(out, ep)
+		// helper calls on the value that succeeded: add the conditions of each
+		// of the helper's success paths (one entry path per combination)
+		V := mustPat("res<2>(next(range($0)))")
+		alts := [][]Fact{p.conds}
+		for _, c := range p.conds {
+			if !c.Val || c.Pred.Op != "binop" || c.Pred.S != "==" {
+				continue
+			}
+			var call *Term
+			for i := 0; i < 2; i++ {
+				if c.Pred.Args[i].Op == "nil" && c.Pred.Args[1-i].Op == "call" {
+					call = c.Pred.Args[1-i]
+				}
+			}
+			if call == nil {
+				continue
+			}
+			g := P.calleeOfTerm(call)
+			if g == nil || g == val || errIndex(g) != 0 || g.Signature.Results().Len() != 1 {
+				continue
+			}
+			usesV := false
+			for _, a := range call.Args {
+				if a.eq(V) {
+					usesV = true
+				}
+			}
+			if !usesV {
+				continue
+			}
+			m := map[string]*Term{}
+			for i, a := range call.Args {
+				m[strconv.Itoa(i)] = a
+			}
+			var next [][]Fact
+			for _, gp := range P.allPaths(g) {
+				if !gp.feasible() {
+					continue
+				}
+				fs := factSet{}
+				for _, gc := range gp.conds {
+					fs.add(gc)
+				}
+				if k, _ := P.classifyErr(gp.results()[0], fs); k == exitFailure {
+					continue
+				}
+				var sub []Fact
+				for _, gc := range gp.conds {
+					sub = append(sub, normFact(gc.Pred.subst(m), gc.Val))
+				}
+				for _, a := range alts {
+					next = append(next, append(append([]Fact{}, a...), sub...))
+				}
+				if len(next) > 256 {
+					break
+				}
+			}
+			if len(next) > 0 {
+				alts = next
+			}
+		}
+		for _, a := range alts {
+			cp := *ep
+			cp.conds = a
+			out = append(out, &cp)
+		}
 	}
 	return out, L
 }
 
+func (ep *entryPath) has(f Fact) bool {
+	for _, c := range ep.conds {
+		if c.String() == f.String() {
+			return true
+		}
+	}
+	return false
+}
+
 func (ep *entryPath) hasCondCall(callee string, arg0 *Term, val bool) bool {
-	for _, c := range ep.p.conds {
+	for _, c := range ep.conds {
 		if c.Val == val && c.Pred.Op == "call" && c.Pred.S == callee && len(c.Pred.Args) >= 1 && (arg0 == nil || c.Pred.Args[0].eq(arg0)) {
 			return true
 		}
@@ -273,7 +348,7 @@ func (ep *entryPath) hasCondCall(callee string, arg0 *Term, val bool) bool {
 
 func (ep *entryPath) condStrings() string {
 	var cs []string
-	for _, c := range ep.p.conds {
+	for _, c := range ep.conds {
 		cs = append(cs, c.String())
 	}
 	return strings.Join(cs, " ∧ ")
